@@ -24,7 +24,6 @@ trait Fl: Ex + Copy + PartialOrd + PartialEq + 'static {
     fn down(self) -> Self;
     fn neg(self) -> Self;
     fn plus(self, o: Self) -> Self;
-    fn finite(self) -> bool { self.as_f64().is_finite() }
     fn pow2(e: i32) -> Self { Self::of(2f64.powi(e)) }
     /// x is exactly representable
     fn exact(x: f64) -> bool { Self::of(x).as_f64() == x }
@@ -216,6 +215,7 @@ struct Plan {
     int_n: i64,          // integer angles in +-int_n
     int_norm_stride: i64, // every n-th integer also goes through the normal forms
     int_eq_stride: i64,  // every n-th integer goes through the equality family
+    eq_extra_every: usize, // every n-th of those also gets the off-by-a-degree / off-by-an-ulp / reflexive companions
     mult_dense: i64,     // all multiples of 180 up to this index ...
     mult_stride: i64,    // ... then every n-th up to 2^20
     random_n: usize,
@@ -378,7 +378,7 @@ where
         let x2 = F::of((x + 360 * k) as f64);
         on!(rr, H => {
             if c % 2 == 0 { do_eq::<F, H<F>>(o, x1, x2, if c % 6 == 0 { "hs" } else { "hh" }); } else { do_eq::<F, H<F>>(o, x2, x1, "hh"); }
-            if c % 8 == 3 {
+            if c % p.eq_extra_every == 3 {
                 // one degree off a whole-turn shift: must be unequal; and one ulp off: the specification decides
                 do_eq::<F, H<F>>(o, x1, F::of((x + 360 * k + 1) as f64), "hh");
                 do_eq::<F, H<F>>(o, x1, x2.up(), "hh");
@@ -585,11 +585,11 @@ fn main() {
     let seed = seed_from_env();
     let thorough = arg_or("--tier", "quick") == "thorough";
     let (p32, p64) = if thorough {
-        (Plan { int_n: 100_000, int_norm_stride: 16, int_eq_stride: 1, mult_dense: 1 << 30, mult_stride: 1, random_n: 25_000, other_scale: 4, sweep: true },
-         Plan { int_n: 100_000, int_norm_stride: 64, int_eq_stride: 4, mult_dense: 60, mult_stride: 5, random_n: 25_000, other_scale: 4, sweep: false })
+        (Plan { int_n: 100_000, int_norm_stride: 16, int_eq_stride: 1, eq_extra_every: 32, mult_dense: 1 << 30, mult_stride: 1, random_n: 25_000, other_scale: 4, sweep: true },
+         Plan { int_n: 100_000, int_norm_stride: 64, int_eq_stride: 4, eq_extra_every: 32, mult_dense: 60, mult_stride: 5, random_n: 25_000, other_scale: 4, sweep: false })
     } else {
-        (Plan { int_n: 2000, int_norm_stride: 5, int_eq_stride: 1, mult_dense: 40, mult_stride: 97, random_n: 2200, other_scale: 1, sweep: false },
-         Plan { int_n: 2000, int_norm_stride: 5, int_eq_stride: 1, mult_dense: 40, mult_stride: 97, random_n: 2200, other_scale: 1, sweep: false })
+        (Plan { int_n: 2000, int_norm_stride: 5, int_eq_stride: 1, eq_extra_every: 8, mult_dense: 40, mult_stride: 97, random_n: 2200, other_scale: 1, sweep: false },
+         Plan { int_n: 2000, int_norm_stride: 5, int_eq_stride: 1, eq_extra_every: 8, mult_dense: 40, mult_stride: 97, random_n: 2200, other_scale: 1, sweep: false })
     };
     drive::<f32>(&mut o, &p32, seed);
     drive::<f64>(&mut o, &p64, seed);
